@@ -14,6 +14,11 @@
 //verif:stub context.WithCancel -> rt.StubWithCancel
 //verif:stub context.WithTimeout -> rt.StubWithTimeout
 //verif:stub context.WithDeadline -> rt.StubWithDeadline
+//verif:stub crypto/sha256.New -> rt.StubHashNew
+//verif:stub crypto/sha256.Sum256 -> rt.DigestOf
+//verif:stub crypto/sha512.New -> rt.StubHashNew
+//verif:stub crypto/sha512.New384 -> rt.StubHashNew
+//verif:stub crypto/sha1.New -> rt.StubHashNew
 //verif:merge (time.Time).Before
 //verif:merge (time.Time).After
 //verif:merge (time.Time).Equal
@@ -29,6 +34,7 @@ package zzverifrt
 
 import (
 	"context"
+	"hash"
 	"net/url"
 	"crypto/x509/pkix"
 	"encoding/asn1"
@@ -116,6 +122,23 @@ func IteTime(c bool, a, b time.Time) time.Time
 // Same: identical dynamic type and identical value; for byte-slice typed values (ed25519 keys) identity of the value.
 func Same(a, b any) bool
 func BytesEq(a, b []byte) bool
+
+// DigestOf: an idealised, injective 32-byte digest of a text (engine intrinsic): equal texts, equal digests; different
+// texts, different digests. Stands for crypto/sha256.Sum256 and, through StubHash, for the streaming hashes.
+func DigestOf(content []byte) [32]byte
+
+// StubHash: hash.Hash whose state is the text written so far.
+type StubHash struct{ acc []byte }
+
+func (h *StubHash) Write(p []byte) (int, error) { h.acc = append(h.acc, p...); return len(p), nil }
+func (h *StubHash) Sum(b []byte) []byte {
+	d := DigestOf(h.acc)
+	return append(b, d[:]...)
+}
+func (h *StubHash) Reset()         { h.acc = nil }
+func (h *StubHash) Size() int      { return 32 }
+func (h *StubHash) BlockSize() int { return 64 }
+func StubHashNew() hash.Hash      { return &StubHash{} }
 func StrEq(a, b string) bool
 
 // ---- bounds, tiers, diagnostics
